@@ -600,8 +600,8 @@ PROPS = {
     },
     "C06": {
         "lean_modules": ["Dbg.Props.C06"],
-        "theorems": ["Compress.C06_key_is_min", "Compress.C06_key_rc_invariant", "Compress.C06_flip_opposite", "Compress.C06_stranded_no_canon", "Compress.C06_unstranded_canon"],
-        "partial": ["filter_rc_invariant, graph_rc_invariant, stranded_separation at table/graph level: executable predicates on the crate's outputs for masked reverse-complemented read sets; theorems not yet written"],
+        "theorems": ["Compress.C06_filter_rc_invariant", "Compress.C06_tables_agree", "Compress.C06_graph_rc_invariant", "Compress.C06_stranded_separation", "Compress.linkOf_congr", "Compress.C06_key_is_min", "Compress.C06_key_rc_invariant", "Compress.C06_flip_opposite", "Compress.C06_stranded_no_canon", "Compress.C06_unstranded_canon"],
+        "partial": ["payload and adjacency equality of the finished graphs, and invariance of the sharded and re-compressed pipelines (they rest on C04 / C09): executable predicates on the crate's outputs for masked reverse-complemented read sets; C06_graph_rc_invariant is stated for two tables listed in the same order (the crate lists them in hash order: compared up to node order by the executable predicate)"],
         "n_quick": 1200, "n_thorough": 50000,
         "nontrivial": lambda toks, impl: impl != "panic" and toks[5] != "-" and toks[6].count(",") >= 1, "tags": _c06_tags, "shrink": _reads_shrink(6),
         "rule": "requests `rcsym K stranded thr mask reads`: the crate builds the k-mer table and the direct, sharded and re-compressed graphs for the "
